@@ -21,7 +21,8 @@ META = {
                    "which level) are structural and enumerated canonically (restricted-growth strings).",
     "tier_bounds": {
         "quick": "n<=4 rows; layouts: 1 sensitive (<=3 levels), 2 sensitive (<=2 levels each), 1 sensitive+1 control, 2 sensitive+1 control (<=2 levels), "
-                 "3 sensitive (n<=3), 1 sensitive+2 control (n<=3); metrics bare callable and dict form; all canonical level assignments",
+                 "3 sensitive (n<=3), 1 sensitive+2 control (n<=3); metrics bare callable and dict form; all canonical level assignments; in every other "
+                 "structure the frame under test is the SECOND frame built from the same argument objects (metrics / sample_params dicts, feature objects)",
         "thorough": "n<=5 for the first four layouts (<=3 levels for single columns), n<=4 for 3 sensitive and for 2 control; label kinds str and int",
     },
     "trusted_base": ["z3 (EUF+LRA)", "symx proxies", "pandas groupby/reindex as executed on object columns"],
